@@ -108,9 +108,21 @@ def _take(c, res, what):
                               % (what, res['completed'], res['executed'], late))
 
 
+def _timed(c, binp, behs):
+    """Real-time replay (1 tick = 1 s, all behaviours of a wave wake in the same moments): on a loaded machine many
+    operations miss their time window and the behaviour is abandoned (never judged). Retried with smaller waves."""
+    res = c.harness(binp, 'replay', behs, timeout=600)
+    for wave in ('80', '30'):
+        if not res['executed'] or res['completed'] * 2 >= res['executed'] or res.get('violations'):
+            break
+        c.notes.append('replay: only %d of %d behaviours ran inside their time windows; retried with waves of %s' % (res['completed'], res['executed'], wave))
+        res = c.harness(binp, 'replay', behs, timeout=1500, env={'VERIF_WAVE': wave})
+    return res
+
+
 def _replay(c, binp, n):
     behs = _simulate(c, 'sim.cfg', n)
-    res = c.harness(binp, 'replay', behs, timeout=600)
+    res = _timed(c, binp, behs)
     _take(c, res, 'replay')
 
 
@@ -251,7 +263,7 @@ def c19_map(c):
     _exhaustive(c, ['quick-idem.cfg', 'quick-checks.cfg'] if quick else ['thorough-idem.cfg', 'thorough-checks.cfg'])
     binp = c.go_build('mapbroker')
     behs = _simulate(c, 'sim-c19.cfg', 200 if quick else 1500)
-    res = c.harness(binp, 'replay', behs, timeout=600)
+    res = _timed(c, binp, behs)
     _take(c, res, 'replay-c19')
     if not quick:
         _trace(c, binp, 300)
